@@ -204,6 +204,8 @@ class DualQuaternion:
             # sandwich with the dual conjugate (real*, -dual*)
             vp = left * DualQuaternion.Pure(v) * DualQuaternion(left.real.conj(), -1 * left.dual.conj())
             return vp.dual.v
+        else:
+            raise ValueError('bad operands')
 
     def matrix(self):
         """
